@@ -76,3 +76,16 @@ NOT_APPLICABLE.update({
     "C14": "parse_obj is String::extend + split_ascii_whitespace + str::split + str::parse; with three symbolic digits in one face line symbolic execution did not finish in 20 min / 9 GB (memchr alignment cases, String growth, dec2flt)",
     "C15": "per configuration the mesh is a constant (sin/cos of count-derived angles, index arithmetic on counts); symbolic counts make loop bounds and Vec lengths symbolic (the encoding that fails for the clipper), concrete counts leave nothing for a solver to range over",
 })
+
+# ---------------------------------------------------------------- C12
+P = "C12"
+BOUNDS[P] = "coordinates: every pair of f32 bit patterns (NaN, +-inf, subnormals included); texture sizes: {1,2,4,8}^2 (repeat), [1,5]^2 (clamp); owned and borrowed (sub-rectangle of 8x4 at every offset)"
+OUTSIDE[P] = ["textures larger than 8x8 (repeat) / 5x5 (clamp)", "texel types other than (u32,u32)", "behaviour of SamplerOnce out of range (unspecified by the docs)"]
+LEVEL_TEXT[P] = ("Bounded model checking of the three samplers in all four float configurations over the whole f32 x f32 coordinate domain; the texel read is its own address, "
+                 "so the integer oracle (floor in f64, mod / clamp in i64) decides which texel was addressed. Only texture size is bounded.")
+H(P, "c12", "c12_repeat_abs", ALL4, "u,v: all f32 bit patterns; dims symbolic in {1,2,4,8}^2; owned Buf2", "no panic; |u|<2^31 => x == floor(u) mod w (same for v)", unwind=66, est=60)
+H(P, "c12", "c12_repeat_rel", ALL4, "u,v: all f32; 4x4", "sample(tc) == sample_abs(w*u, h*v)", unwind=18, est=30)
+H(P, "c12", "c12_repeat_borrowed", ALL4, "u,v: all f32; sub-rectangle {1,2,4}x{1,2} of an 8x4 buffer at every offset", "address inside the sub-rectangle and == floor mod size relative to it", unwind=34, est=60)
+H(P, "c12", "c12_clamp_abs", FP3, "u,v: all f32; dims symbolic in [1,5]^2", "no panic; texel == floor(clamp(u,0,w-1)); relative == absolute scaled", unwind=27, est=60)
+H(P, "c12", "c12_once_agrees", ALL4, "dims {1,2,4}^2, 0<=u<w, 0<=v<h (all floats in range)", "SamplerOnce == repeat == clamp == floor", unwind=18, est=30)
+H(P, "c12", "c12_once_rel", ALL4, "4x2, all (u,v) whose scaled value is in range", "sample == sample_abs scaled", unwind=18, est=30)
